@@ -99,6 +99,7 @@ PROPS["C12"] = {
         # pool / no memory is handed back twice" (vReleased, double-Put detection); they are re-run here for C12
         {"name": "linkedlist-ownership", "pkgdir": "pkg/buffer/linkedlist", "files": ["harness/linkedlist/list_common.go", "harness/linkedlist/c11_list.go"], "mode": "int", "contracts": ["byteslice"],
          "cfg": {"vcfg": {"nodes": 2, "reader_calls": 2}}, "cfg_thorough": {"vcfg": {"nodes": 3, "reader_calls": 3}}},
+        "__LOOP_ZONE__",
         {"name": "rbpool", "pkgdir": "pkg/pool/ringbuffer", "files": ["harness/rbpool/c12_rbpool.go"], "mode": "int", "contracts": ["byteslice", "rb_calibrate_havoc"],
          "extra": [("pkg/buffer/ring", "harness/ring/ring_common.go"), ("pkg/buffer/ring", "harness/ring/ring_export.go")]},
     ],
@@ -437,3 +438,15 @@ PROPS["C07"] = {
     "assumptions": ["ghost kernel contract"],
     "units": [dict(_LOOP_COMMON, name="loop-fd", files=["harness/gnet/vloop_world.go", "harness/gnet/c14_pick.go", "harness/gnet/c04_lifecycle.go", "harness/gnet/c07_fd.go"], cfg={"vcfg": {"nodes": 1}})],
 }
+
+
+# units that need the loop-step world but belong to properties defined earlier
+def _patch_units():
+    zone_unit = dict(_LOOP_COMMON, name="loop-zone", files=["harness/gnet/vloop_world.go", "harness/gnet/c12_zone.go"], cfg={"vcfg": {"nodes": 1}})
+    us = PROPS["C12"]["units"]
+    PROPS["C12"]["units"] = [zone_unit if u == "__LOOP_ZONE__" else u for u in us]
+    PROPS["C17"]["units"].append(dict(zone_unit, name="loop-zone-c17"))
+    PROPS["C15"]["units"].append(dict(_LOOP_COMMON, name="loop-assign", files=["harness/gnet/vloop_world.go", "harness/gnet/c14_pick.go", "harness/gnet/c15_assign.go"], cfg={"vcfg": {"nodes": 1}}))
+
+
+_patch_units()
